@@ -860,8 +860,11 @@ def route1(ctx, pid):
             ctx.bad("dunder:HexaryTrie.%s" % dn, d.loc(), "%s is not `%s(%s)`" % (dn, mn, ", ".join(d.params[1:])), rule="SIB1")
     ex = c_.methods["exists"]
     rets = {st.ret for p, st in pq.states(ctx, ex) if p.exit[0] == "return"}
-    w = ("!=", ("call", HEX + ".get", (("self",), ("p", ex.params[1])), ()), C(b""))
-    if rets and all(rel_norm(r, True) == w for r in rets):
+    gk = ("call", HEX + ".get", (("self",), ("p", ex.params[1])), ())
+    w = ("!=", gk, C(b""))
+    tab = pq.bool_table(ctx, ex)
+    if tab is not None and tab in ({(frozenset({("!=", gk, C(b""))}), True), (frozenset({("==", gk, C(b""))}), False)},
+                                   {(frozenset({("!=", C(b""), gk)}), True), (frozenset({("==", C(b""), gk)}), False)}):
         ctx.ok("exists:HexaryTrie.exists", ex.loc(), "exists(key) is get(key) != b''", rule="SIB1")
     else:
         ctx.bad("exists:HexaryTrie.exists", ex.loc(), "exists returns `%s`, expected get(key) != b''" % "; ".join(tstr(r)[:50] for r in rets), rule="SIB1")
